@@ -37,3 +37,43 @@ def test_guarantees(e: ast.AST, pol: bool, holds: Callable[[Literal], bool],
                     resolve: Optional[Callable[[str], Optional[ast.AST]]] = None) -> bool:
     alts = alternatives(e, pol, resolve)
     return bool(alts) and all(any(holds(l) for l in alt) for alt in alts)
+
+
+def atom(lit: Literal) -> Tuple[str, bool]:
+    """A literal as (canonical text, polarity): ``x is not None`` / ``x != c`` are the negations of ``x is None`` / ``x == c``."""
+    e, pol = lit
+    if isinstance(e, ast.Compare) and len(e.ops) == 1:
+        op = e.ops[0]
+        flip = {ast.IsNot: ast.Is, ast.NotEq: ast.Eq, ast.NotIn: ast.In}.get(type(op))
+        if flip is not None:
+            e = ast.Compare(left=e.left, ops=[flip()], comparators=e.comparators)
+            pol = not pol
+    return ast.unparse(e), pol
+
+
+def consistent(tests: List[Tuple[ast.AST, bool]], assume: Optional[dict] = None, limit: int = 4096) -> bool:
+    """Can all the (test, polarity) pairs hold together?  Decided propositionally over the literals of the tests (same text =
+    same value: sound for pure tests of unmodified names - the callers use it for flag / None tests of parameters), under the
+    assumed truth values ``{text: bool}``.  Unknown / too large: True (feasible)."""
+    partial: List[dict] = [dict(assume or {})]
+    for t, pol in tests:
+        alts = alternatives(t, pol)
+        nxt: List[dict] = []
+        for env in partial:
+            for alt in alts:
+                e2 = dict(env)
+                ok = True
+                for lit in alt:
+                    a, p = atom(lit)
+                    if e2.get(a, p) != p:
+                        ok = False
+                        break
+                    e2[a] = p
+                if ok:
+                    nxt.append(e2)
+        if len(nxt) > limit:
+            return True
+        if not nxt:
+            return False
+        partial = nxt
+    return True
